@@ -527,7 +527,7 @@ class ABCTune(object):
         # Accidentals
         if match.group(1):
           pitch_change = 0
-          for accidental in match.group(1).split():
+          for accidental in match.group(1):
             if accidental == '^':
               pitch_change += 1
             elif accidental == '_':
